@@ -2,6 +2,8 @@ SPECIFICATION SpecInst
 CONSTANTS
   Fams <- InstFams
   D_SwapDelete = TRUE
+  M_RemovePerSelector = TRUE
+  ScanT = 1
   M_NamesComparedWhole = TRUE
   NameW = 5
   Cap = 2
